@@ -87,3 +87,7 @@ Definition bundle_bytes (b : bundle) : list byte :=
   n2b 159 :: enc_primary (b_primary b) ++ concat (map enc_canonical (b_canonicals b)) ++ [n2b 255].
 Definition to_cbor (b : bundle) : list byte * bundle :=
   let b' := bundle_calculate_crc b in (bundle_bytes b', b').
+(* the second public encoding route, serde's `Serialize for Bundle` (bundle.rs: serialize_seq(Some(1 + canonicals.len())), then every block
+   with its STORED CRC value): a definite-length outer array - what serde_cbor::to_vec(&bundle) emits *)
+Definition bundle_bytes_serde (b : bundle) : list byte :=
+  head 4 (1 + Nlen (b_canonicals b)) ++ enc_primary (b_primary b) ++ concat (map enc_canonical (b_canonicals b)).
